@@ -23,6 +23,9 @@ def validate_trace(ctx, tf, R, module="Trace_MachineP", extra_constants=None, wh
     consts = {"Regs": "{%s}" % ",".join(str(i) for i in range(R))}
     consts.update(extra_constants or {})
     r = tlc.run_tlc(module, env={"TRACE": tf}, constants=consts, workers=1, workdir=ctx.dir, timeout=3000)
+    st = [ln for ln in r.out.splitlines() if "STATS" in ln]
+    if st:
+        ctx.cov["noise_stats_last"] = st[-1].replace('\\"', "'").strip('"')[:600]
     if r.ok and r.depth == n + 1:
         ctx.add("events_validated", n)
         ctx.add("distinct_events", r.distinct - 1)
